@@ -60,7 +60,11 @@ def run(yv, fv):
         return np.array([float((-1) ** i * (i + 1)) for i in range(len(names))]) if len(calls) == 1 else np.array(fv)
     odesys.f_cb = f_stub
     cb = extra["max_euler_step_cb"]
-    cb(0, dict(zip(names, [3.0 + i for i in range(len(names))])))   # history: an earlier query of the same callback for another state
+    try:   # history: earlier queries of the same callback for another state, integer-valued (a list) and as a mapping
+        cb(0, [3 + i for i in range(len(names))])
+        cb(0, dict(zip(names, [3.0 + i for i in range(len(names))])))
+    except Exception as e:
+        bad.append("an earlier query for the state 3, 4, 5, ... raised %%r" %% (e,)); return
     arr = np.array(yv, dtype=float)
     h1 = cb(0, arr)                                # the query, state given as the caller's own array
     h2 = cb(0, arr)                                # and once more on the same array
